@@ -111,7 +111,21 @@ pub fn run_one(prop: &str, seed: u64, i: u64, skip_fast: bool) -> (Case, RunOut)
     (case, out)
 }
 
-fn worker(cfg: &BatchCfg, next: &AtomicU64, end: u64, skip_pass: bool, finds: &Mutex<Vec<Found>>) -> Stats {
+/// One slot per worker: which run it is executing and since when, so that a
+/// converter call that never returns is noticed (a hang cannot be caught by
+/// catch_unwind).
+pub struct Slot {
+    pub run: AtomicU64,
+    pub since_ms: AtomicU64,
+}
+
+pub const HANG_MS: u64 = 30_000;
+
+fn now_ms(t0: &Instant) -> u64 {
+    t0.elapsed().as_millis() as u64 + 1
+}
+
+fn worker(cfg: &BatchCfg, next: &AtomicU64, end: u64, skip_pass: bool, finds: &Mutex<Vec<Found>>, slot: &Slot, t0: &Instant) -> Stats {
     let mut st = Stats::default();
     let prop = cfg.prop.as_str();
     loop {
@@ -124,7 +138,10 @@ fn worker(cfg: &BatchCfg, next: &AtomicU64, end: u64, skip_pass: bool, finds: &M
                 continue;
             }
             crate::sink::set_current_run(cfg.seed, i);
+            slot.run.store(i, Ordering::Relaxed);
+            slot.since_ms.store(now_ms(t0), Ordering::Relaxed);
             let (case, out) = run_one(prop, cfg.seed, i, skip_pass);
+            slot.since_ms.store(0, Ordering::Relaxed);
             st.evaluations += 1;
             st.calls += out.calls as u64;
             st.events += out.events as u64;
@@ -378,6 +395,67 @@ pub fn replay_file(path: &Path) -> Result<(String, Option<Viol>, Value), String>
     Ok((prop, hit, v))
 }
 
+/// A run did not return: write a seed replay (the explicit trace cannot be
+/// recorded because the run never finished), report, and leave the process -
+/// the stuck thread cannot be recovered.
+fn report_hang(cfg: &BatchCfg, prop: &str, run_index: u64) -> ! {
+    let _ = std::fs::create_dir_all(&cfg.replay_dir);
+    let path = cfg.replay_dir.join(format!("{}-hang-{}-{}.json", prop, cfg.seed, run_index));
+    let j = json!({
+        "format": 1, "kind": "seed", "property": prop, "oracle": "converter-call-did-not-return",
+        "detail": format!("run {} did not return within {} s: a converter call hangs", run_index, HANG_MS / 1000),
+        "verif_seed": cfg.seed, "run_index": run_index, "substrate": cfg.substrate,
+        "skip_fast_utf8": skip_fast_for(cfg, run_index), "tiny": crate::gen::tiny(),
+        "violation_line": format!("VIOLATION property={} replay={}", prop, path.display()),
+    });
+    let _ = std::fs::write(&path, serde_json::to_string_pretty(&j).unwrap());
+    println!("violation: oracle=converter-call-did-not-return run_index={}: a converter call did not return within {} s", run_index, HANG_MS / 1000);
+    if prop == "C08" {
+        println!("VIOLATION property=C08 replay={}", path.display());
+        std::process::exit(1);
+    }
+    eprintln!("HARNESS ERROR: run {} of {} hangs inside a converter call (that is C08's to report: ./check C08); this check cannot complete", run_index, prop);
+    std::process::exit(2);
+}
+
+/// Replay of a `kind: seed` file: regenerate the run from (seed, index) and
+/// watch for the hang.
+pub fn replay_seed(v: &Value, path: &Path) -> i32 {
+    let prop = v.get("property").and_then(|x| x.as_str()).unwrap_or("").to_string();
+    let seed = v.get("verif_seed").and_then(|x| x.as_u64()).unwrap_or(1);
+    let idx = v.get("run_index").and_then(|x| x.as_u64()).unwrap_or(0);
+    let skip = v.get("skip_fast_utf8").and_then(|x| x.as_bool()).unwrap_or(false);
+    if v.get("tiny").and_then(|x| x.as_bool()).unwrap_or(false) {
+        crate::gen::set_tiny(true);
+    }
+    let propc: &'static str = match CLAIMED.iter().copied().find(|p| *p == prop) {
+        Some(p) => p,
+        None => return 2,
+    };
+    set_skip_fast_hook(skip);
+    let (tx, rx) = std::sync::mpsc::channel();
+    std::thread::spawn(move || {
+        let (_case, out) = run_one(propc, seed, idx, skip);
+        let _ = tx.send(out.viols.iter().filter(|x| x.prop == propc).map(|x| format!("{}: {}", x.oracle, x.detail)).collect::<Vec<_>>());
+    });
+    match rx.recv_timeout(std::time::Duration::from_millis(HANG_MS)) {
+        Err(_) => {
+            println!("reproduced: run {} did not return within {} s", idx, HANG_MS / 1000);
+            println!("VIOLATION property={} replay={}", prop, path.display());
+            1
+        }
+        Ok(v) if !v.is_empty() => {
+            println!("reproduced: {}", v[0]);
+            println!("VIOLATION property={} replay={}", prop, path.display());
+            1
+        }
+        Ok(_) => {
+            println!("replay of {}: no violation of {} reproduced on this tree", path.display(), prop);
+            0
+        }
+    }
+}
+
 pub struct BatchResult {
     pub violations: usize,
     pub known_hits: usize,
@@ -411,9 +489,29 @@ pub fn run_batch(cfg: &BatchCfg) -> BatchResult {
             }
             set_skip_fast_hook(pass);
             let next = AtomicU64::new(start);
+            let nthreads = cfg.threads.max(1);
+            let slots: Vec<Slot> = (0..nthreads).map(|_| Slot { run: AtomicU64::new(0), since_ms: AtomicU64::new(0) }).collect();
+            let done = std::sync::atomic::AtomicBool::new(false);
             let results: Vec<std::thread::Result<Stats>> = std::thread::scope(|s| {
-                let hs: Vec<_> = (0..cfg.threads.max(1)).map(|_| s.spawn(|| worker(cfg, &next, end, pass, &finds))).collect();
-                hs.into_iter().map(|h| h.join()).collect()
+                let hs: Vec<_> = slots.iter().map(|slot| s.spawn(|| worker(cfg, &next, end, pass, &finds, slot, &t0))).collect();
+                if !cfg!(miri) {
+                    // watchdog: a run that does not come back is a hang inside a converter call
+                    s.spawn(|| {
+                        while !done.load(Ordering::Relaxed) {
+                            std::thread::sleep(std::time::Duration::from_millis(200));
+                            let now = now_ms(&t0);
+                            for slot in slots.iter() {
+                                let since = slot.since_ms.load(Ordering::Relaxed);
+                                if since != 0 && now > since + HANG_MS {
+                                    report_hang(cfg, prop, slot.run.load(Ordering::Relaxed));
+                                }
+                            }
+                        }
+                    });
+                }
+                let r = hs.into_iter().map(|h| h.join()).collect();
+                done.store(true, Ordering::Relaxed);
+                r
             });
             for r in results {
                 match r {
